@@ -340,14 +340,33 @@ fn do_has_held<T: R9>(w: &mut World, excl: bool) -> Result<(Out, Option<u64>), S
         return Ok((Out::Bool(false), None));
     }
     let w: &World = w;
+    // fetches of a PRESENT slot while a guard of it is alive: a fetch that the guard rules out panics - it never
+    // answers "absent" (None), which would disagree with the presence queries and with the map
+    let by_id = |want_shared_ok: bool| -> Result<(), String> {
+        let id = ResourceId::new::<T>();
+        let sh = catch_unwind(AssertUnwindSafe(|| w.try_fetch_by_id::<T>(id.clone()).is_some()));
+        let ex = catch_unwind(AssertUnwindSafe(|| w.try_fetch_mut_by_id::<T>(id.clone()).is_some()));
+        let ty = catch_unwind(AssertUnwindSafe(|| w.try_fetch::<T>().is_some()));
+        for (what, got, may_succeed) in [("try_fetch_by_id", sh, want_shared_ok), ("try_fetch_mut_by_id", ex, false), ("try_fetch", ty, want_shared_ok)] {
+            match got {
+                Ok(false) => return Err(format!("fetch-disagrees: {} returned None for a present slot while a guard of it is alive", what)),
+                Ok(true) if !may_succeed => return Err(format!("fetch-disagrees: {} returned a guard although a conflicting guard is alive", what)),
+                Err(_) if may_succeed => return Err(format!("fetch-disagrees: {} panicked although only a shared guard is alive", what)),
+                _ => {}
+            }
+        }
+        Ok(())
+    };
     let (a, b) = if excl {
         let g = w.fetch_mut::<T>();
         let r = (w.has_value::<T>(), w.has_value_raw(ResourceId::new::<T>()));
+        by_id(false)?;
         drop(g);
         r
     } else {
         let g = w.fetch::<T>();
         let r = (w.has_value::<T>(), w.has_value_raw(ResourceId::new::<T>()));
+        by_id(true)?;
         drop(g);
         r
     };
@@ -407,7 +426,7 @@ fn apply(w: &mut World, m: &mut Model, op: Op9) -> Result<(), (String, String)> 
     }));
     let (got, made) = match r {
         Ok(Ok((o, made))) => (o, made),
-        Ok(Err(e)) => return Err(("value-corrupted".into(), e)),
+        Ok(Err(e)) => return Err((if e.starts_with("fetch-disagrees") { "fetch-disagrees-with-presence".into() } else { "value-corrupted".into() }, e)),
         Err(p) => {
             let _ = payload_str(&*p);
             (Out::Panic, None)
